@@ -4,19 +4,28 @@ import FeatModel.Lemmas.C11Xml
 import FeatModel.Lemmas.C11Mesh
 import FeatModel.Lemmas.C11RoundTrip
 import FeatModel.Lemmas.C11RoundTrip2
+import FeatModel.Lemmas.C11Bezier
 /-!
-C11 — charts (`Circle`, `Sphere`) of the mesh file model: the printed chart block is parsed back to the chart,
+C11 — charts (`Circle`, `Sphere`, `Bezier`; the Bezier block itself is in `C11Bezier.lean`) of the mesh file model: the printed chart block is parsed back to the chart,
 malformed chart markups are rejected, and the round trip `parseMeshFile ∘ printMeshFile = id` for nodes with an atlas.
 Core Lean only.
 -/
 namespace FeatModel.C11
 
-/-- an admissible atlas entry of a `dim`-dimensional mesh file -/
+/-- an admissible atlas entry of a `dim`-dimensional mesh file: a non-empty admissible name; a `Circle` in 2D /
+    `Sphere` in 3D with a radius not below the reader's threshold (and a non-degenerate circle domain); a `Bezier`
+    chart in 2D that satisfies `BezierOk` (`C11Bezier.lean`) -/
 def ChartOk (dim : Nat) (name : Str) (c : Chart) : Prop :=
   name ≠ [] ∧ NameOk name ∧
   match c with
   | .circle r _ _ dom => dim = 2 ∧ ¬ r < radiusMin ∧ (∀ l rr, dom = some (l, rr) → l ≠ rr)
   | .sphere r _ _ _ => dim = 3 ∧ ¬ r < radiusMin
+  | .bezier cl o segs params => dim = 2 ∧ BezierOk cl o segs params
+
+theorem ChartOk_bezier_iff (dim : Nat) (name : Str) (cl : Bool) (o : Rat)
+    (segs : List (List (List Rat) × List Rat)) (params : List Rat) :
+    ChartOk dim name (.bezier cl o segs params) ↔
+      name ≠ [] ∧ NameOk name ∧ dim = 2 ∧ BezierOk cl o segs params := Iff.rfl
 
 end FeatModel.C11
 
@@ -175,6 +184,10 @@ def sphereMarkup (r mx my mz : Rat) : Markup :=
 def chartMarkup : Chart → Markup
   | .circle r mx my dom => circleMarkup r mx my dom
   | .sphere r mx my mz => sphereMarkup r mx my mz
+  | .bezier .. => circleMarkup 0 0 0 none      -- not used (Bezier charts are not one-line charts)
+
+/-- a chart that is written as one closed element line -/
+def OneLine (c : Chart) : Prop := ∀ cl o segs params, c ≠ .bezier cl o segs params
 
 /-- the text between the brackets of the element line of a chart, without its first character -/
 def domText : Option (Rat × Rat) → Str
@@ -192,31 +205,34 @@ def sphereBody (r mx my mz : Rat) : Str :=
 def chartBody : Chart → Str
   | .circle r mx my dom => circleBody r mx my dom
   | .sphere r mx my mz => sphereBody r mx my mz
+  | .bezier .. => []
 
 def chartHead : Chart → Char
   | .circle .. => 'C'
   | .sphere .. => 'S'
+  | .bezier .. => 'B'
 
 theorem chartHead_ne (c : Chart) : chartHead c ≠ '!' := by cases c <;> simp [chartHead]
 
 /-- the three lines of `writeChart` in bracket form -/
-theorem writeChart_eq (name : Str) (c : Chart) :
+theorem writeChart_eq (name : Str) (c : Chart) (hnb : OneLine c) :
     writeChart name c =
       [sp 2 ++ '<' :: (('C' :: ("hart name=".toList ++ q name)) ++ ['>']),
        sp 4 ++ '<' :: ((chartHead c :: chartBody c) ++ ['>']),
        sp 2 ++ '<' :: (('/' :: "Chart".toList) ++ ['>'])] := by
   cases c with
   | circle r mx my dom =>
-    unfold writeChart chartBody circleBody chartHead
+    unfold writeChart writeChartOld chartBody circleBody chartHead
     obtain _ | ⟨l, rr⟩ := dom
     · dsimp only [domText]
       simp
     · dsimp only [domText]
       simp
   | sphere r mx my mz =>
-    unfold writeChart chartBody sphereBody chartHead
+    unfold writeChart writeChartOld chartBody sphereBody chartHead
     dsimp only
     simp
+  | bezier cl o segs params => exact absurd rfl (hnb cl o segs params)
 
 theorem fold_circle_attrs2 (a b : Str) :
     [("radius".toList, a), ("midpoint".toList, b)].foldl insAttr [] =
@@ -286,11 +302,12 @@ theorem scan_sphere_line (r mx my mz : Rat) :
     · exact attrOk_mk (by decide) (mid3_attr mx my mz)
 
 /-- the element line of any chart -/
-theorem scan_chart_item_line (c : Chart) :
+theorem scan_chart_item_line (c : Chart) (hnb : OneLine c) :
     scanMarkup ('<' :: ((chartHead c :: chartBody c) ++ ['>'])) = .ok (some (chartMarkup c)) := by
   cases c with
   | circle r mx my dom => exact scan_circle_line r mx my dom
   | sphere r mx my mz => exact scan_sphere_line r mx my mz
+  | bezier cl o segs params => exact absurd rfl (hnb cl o segs params)
 
 /-- the `<Chart name="…">` line -/
 theorem scan_chart_line (name : Str) (hn : NameOk name) :
@@ -427,11 +444,12 @@ theorem openM_chart (sh : Shape) (dim : Nat) (mesh : Option Mesh) (parts : List 
 
 /-- the closed element line inside a `<Chart>`: the chart is stored in the `ChartParser` -/
 theorem openM_chart_item (sh : Shape) (dim : Nat) (name : Str) (o : Option Chart) (rs : List Frame) (node : Node)
-    (line : Nat) (c : Chart) (hok : ChartOk dim name c) :
+    (line : Nat) (c : Chart) (hok : ChartOk dim name c) (hnb : OneLine c) :
     openM (mkSt sh dim (Frame.chart name o :: rs) node) line (chartMarkup c) =
       .ok (mkSt sh dim (Frame.chart name (some c) :: rs) node) := by
   obtain ⟨-, -, hc⟩ := hok
   cases c with
+  | bezier cl o segs params => exact absurd rfl (hnb cl o segs params)
   | circle r mx my dom =>
     obtain ⟨hdim, hr, hdom⟩ := hc
     subst hdim
@@ -477,21 +495,66 @@ theorem chartMarkup_flags (c : Chart) : (chartMarkup c).termin = false ∧ (char
   cases c <;> exact ⟨rfl, rfl⟩
 
 /-- **a whole `<Chart>` block**: from the root frame to the root frame, the chart is in the atlas -/
+theorem Run_writeChart_oneLine (sh : Shape) (dim : Nat) (mesh : Option Mesh) (parts : List (Str × Part))
+    (pts : List Partition) (chs : List (Str × Chart)) (name : Str) (c : Chart) (hok : ChartOk dim name c)
+    (hnb : OneLine c)
+    (hfresh : mapFind strLt name chs = none) (b : Str) (below : List Str) :
+    Run (writeChart name c) (b :: below) (mkSt sh dim [Frame.root] ⟨mesh, parts, pts, chs⟩) (b :: below)
+      (mkSt sh dim [Frame.root] ⟨mesh, parts, pts, mapInsert strLt name c chs⟩) := by
+  rw [writeChart_eq name c hnb]
+  have r1 := Run_open_line (k := 2) (a := 'C') (by decide) (scan_chart_line name hok.2.1) rfl rfl
+    (fun line => openM_chart sh dim mesh parts pts chs line name hok.1 hfresh) (b :: below)
+  have r2 := Run_closed_line (k := 4) (chartHead_ne c) (scan_chart_item_line c hnb) (chartMarkup_flags c).1
+    (chartMarkup_flags c).2
+    (fun line => openM_chart_item sh dim name none [Frame.root] ⟨mesh, parts, pts, chs⟩ line c hok hnb)
+    ("Chart".toList :: b :: below)
+  have r3 := Run_close_line (k := 2) (nm := "Chart".toList) (by decide)
+    (fun line => closeTop_chart_frame sh dim name c [Frame.root] mesh parts pts chs line) b below
+  exact Run.append (Run.append r1 r2) r3
+
+/-- **a whole `<Chart>` block**: from the root frame to the root frame, the chart is in the atlas -/
 theorem Run_writeChart (sh : Shape) (dim : Nat) (mesh : Option Mesh) (parts : List (Str × Part))
     (pts : List Partition) (chs : List (Str × Chart)) (name : Str) (c : Chart) (hok : ChartOk dim name c)
     (hfresh : mapFind strLt name chs = none) (b : Str) (below : List Str) :
     Run (writeChart name c) (b :: below) (mkSt sh dim [Frame.root] ⟨mesh, parts, pts, chs⟩) (b :: below)
       (mkSt sh dim [Frame.root] ⟨mesh, parts, pts, mapInsert strLt name c chs⟩) := by
-  rw [writeChart_eq]
-  have r1 := Run_open_line (k := 2) (a := 'C') (by decide) (scan_chart_line name hok.2.1) rfl rfl
-    (fun line => openM_chart sh dim mesh parts pts chs line name hok.1 hfresh) (b :: below)
-  have r2 := Run_closed_line (k := 4) (chartHead_ne c) (scan_chart_item_line c) (chartMarkup_flags c).1
-    (chartMarkup_flags c).2
-    (fun line => openM_chart_item sh dim name none [Frame.root] ⟨mesh, parts, pts, chs⟩ line c hok)
-    ("Chart".toList :: b :: below)
-  have r3 := Run_close_line (k := 2) (nm := "Chart".toList) (by decide)
-    (fun line => closeTop_chart_frame sh dim name c [Frame.root] mesh parts pts chs line) b below
-  exact Run.append (Run.append r1 r2) r3
+  cases c with
+  | circle r mx my dom =>
+    exact Run_writeChart_oneLine sh dim mesh parts pts chs name _ hok (fun _ _ _ _ h => by cases h) hfresh b below
+  | sphere r mx my mz =>
+    exact Run_writeChart_oneLine sh dim mesh parts pts chs name _ hok (fun _ _ _ _ h => by cases h) hfresh b below
+  | bezier cl o segs params =>
+    obtain ⟨hne, hname, hdim, hbz⟩ := hok
+    subst hdim
+    have e1 : sp 2 ++ "<Chart name=".toList ++ q name ++ ">".toList =
+        sp 2 ++ '<' :: (('C' :: ("hart name=".toList ++ q name)) ++ ['>']) := by simp
+    have e3 : sp 2 ++ "</Chart>".toList = sp 2 ++ '<' :: (('/' :: "Chart".toList) ++ ['>']) := by
+      have : "</Chart>".toList = '<' :: (('/' :: "Chart".toList) ++ ['>']) := by decide
+      rw [this]
+    show Run ([sp 2 ++ "<Chart name=".toList ++ q name ++ ">".toList] ++ writeBezier cl o segs params ++
+      [sp 2 ++ "</Chart>".toList]) _ _ _ _
+    rw [e1, e3]
+    have r1 := Run_open_line (k := 2) (a := 'C') (by decide) (scan_chart_line name hname) rfl rfl
+      (fun line => openM_chart sh 2 mesh parts pts chs line name hne hfresh) (b :: below)
+    have r2 := BZ.Run_writeBezier sh name none [Frame.root] ⟨mesh, parts, pts, chs⟩ "Chart".toList (b :: below)
+      cl o segs params hbz
+    have r3 := Run_close_line (k := 2) (nm := "Chart".toList) (by decide)
+      (fun line => closeTop_chart_frame sh 2 name (Chart.bezier cl o segs params) [Frame.root] mesh parts pts chs
+        line) b below
+    exact Run.append (Run.append r1 r2) r3
+
+/-- **a whole `<Chart>` block with a Bezier chart** (the Bezier instance of `Run_writeChart`): running the scanner over
+    the printed block from a root-frame state adds `(name, chart)` to `node.charts` -/
+theorem Run_writeChart_bezier (sh : Shape) (mesh : Option Mesh) (parts : List (Str × Part))
+    (pts : List Partition) (chs : List (Str × Chart)) (name : Str) (cl : Bool) (o : Rat)
+    (segs : List (List (List Rat) × List Rat)) (params : List Rat)
+    (hne : name ≠ []) (hname : NameOk name) (hbz : BezierOk cl o segs params)
+    (hfresh : mapFind strLt name chs = none) (b : Str) (below : List Str) :
+    Run (writeChart name (.bezier cl o segs params)) (b :: below)
+      (mkSt sh 2 [Frame.root] ⟨mesh, parts, pts, chs⟩) (b :: below)
+      (mkSt sh 2 [Frame.root] ⟨mesh, parts, pts, mapInsert strLt name (.bezier cl o segs params) chs⟩) :=
+  Run_writeChart sh 2 mesh parts pts chs name (.bezier cl o segs params)
+    ((ChartOk_bezier_iff 2 name cl o segs params).2 ⟨hne, hname, rfl, hbz⟩) hfresh b below
 
 /-- the same with the chart appended, when all names in the atlas are smaller -/
 theorem Run_writeChart_append (sh : Shape) (dim : Nat) (mesh : Option Mesh) (parts : List (Str × Part))
@@ -772,7 +835,22 @@ theorem nl_chartsLines (dim : Nat) (chs : List (Str × Chart)) (hc : ∀ nc ∈ 
   simp only [chartsLines, List.mem_flatten, List.mem_map] at hl
   obtain ⟨ls, ⟨⟨nm, c⟩, hnc, rfl⟩, hl⟩ := hl
   have hname : '\n' ∉ nm := fun hm => ((hc _ hnc).2.1.2 _ hm).2.2.2 rfl
-  rw [writeChart_eq] at hl
+  by_cases hbz : ∃ cl o segs params, c = Chart.bezier cl o segs params
+  · obtain ⟨cl, o, segs, params, rfl⟩ := hbz
+    have hl' : l ∈ [sp 2 ++ "<Chart name=".toList ++ q nm ++ ">".toList] ++ writeBezier cl o segs params ++
+        [sp 2 ++ "</Chart>".toList] := hl
+    simp only [List.mem_append, List.mem_singleton] at hl'
+    rcases hl' with (rfl | hl') | rfl
+    · have h1 : '\n' ∉ "<Chart name=".toList := by decide
+      have h2 := nl_q hname
+      have h3 : '\n' ∉ ">".toList := by decide
+      exact nl_append (nl_append (nl_append (nl_sp 2) h1) h2) h3
+    · exact BZ.nl_writeBezier cl o segs params l hl'
+    · exact nl_append (nl_sp 2) (by decide)
+  have hnb : OneLine c := by
+    intro cl o segs params e
+    exact hbz ⟨cl, o, segs, params, e⟩
+  rw [writeChart_eq nm c hnb] at hl
   simp only [List.mem_cons, List.not_mem_nil, or_false] at hl
   rcases hl with rfl | rfl | rfl
   · refine nl_open_line 2 _ ?_
@@ -808,6 +886,7 @@ theorem nl_chartsLines (dim : Nat) (chs : List (Str × Chart)) (hc : ∀ nc ∈ 
         nl_append (nl_append (nl_append (nl_append k1 h1) k2) h2) k3
       simp only [chartHead, chartBody, List.mem_cons, not_or]
       exact ⟨by decide, this⟩
+    | bezier cl o segs params => exact absurd rfl (hnb cl o segs params)
   · exact nl_close_line 2 _ (by decide)
 
 theorem splitLines_node_charts {sh : Shape} {dim : Nat} (hs : supported sh (dim : Int) (dim : Int) = true) {m : Mesh}
@@ -875,7 +954,7 @@ end FeatModel.C11.CH
 
 namespace FeatModel.C11
 
-/-- **parse ∘ print = id** for a file with an atlas (`Circle` / `Sphere` charts), a root mesh, mesh parts with
+/-- **parse ∘ print = id** for a file with an atlas (`Circle` / `Sphere` / `Bezier` charts, see `ChartOk`), a root mesh, mesh parts with
     mappings, own (full) topology and attribute sets (not linked to a chart), and partitions -/
 theorem parse_print_node_charts (sh : Shape) (dim : Nat) (m : Mesh) (parts : List (Str × Part))
     (partitions : List Partition) (charts : List (Str × Chart))
